@@ -2169,6 +2169,7 @@ func (e *CoreExtension) functionParent(args ...interface{}) (interface{}, error)
 
 		// Create a clean context without parent() function to prevent recursion
 		cleanCtx := NewRenderContext(ctx.env, ctx.context, ctx.engine)
+		cleanCtx.sandboxed = ctx.sandboxed // parent() inside a sandbox stays sandboxed
 		defer cleanCtx.Release()
 
 		// Copy all blocks and variables
